@@ -177,6 +177,25 @@ pub fn run(rest: &str) -> String {
                     expected.push(step[1].clone());
                     send(&mut w, request(&dir2, step)).await;
                 }
+                // a document named by a literal URI (not necessarily a file below the session directory)
+                "openuri" => {
+                    send(&mut w, json!({"jsonrpc":"2.0","method":"textDocument/didOpen","params":{"textDocument":{
+                        "uri": step[1], "languageId":"tablegen","version":1,"text": step[2]}}})).await;
+                }
+                "changeuri" => {
+                    send(&mut w, json!({"jsonrpc":"2.0","method":"textDocument/didChange","params":{"textDocument":{
+                        "uri": step[1], "version":2},"contentChanges":content_changes(&step[2])}})).await;
+                }
+                // any notification / request, parameters as given (`$DIR` in strings is replaced by the session directory URI)
+                "notify" => {
+                    let params: Value = serde_json::from_str(&step[2].to_string().replace("$DIR", &format!("file://{}", dir2))).unwrap_or(Value::Null);
+                    send(&mut w, json!({"jsonrpc":"2.0","method": step[1], "params": params})).await;
+                }
+                "reqraw" => {
+                    expected.push(step[1].clone());
+                    let params: Value = serde_json::from_str(&step[3].to_string().replace("$DIR", &format!("file://{}", dir2))).unwrap_or(Value::Null);
+                    send(&mut w, json!({"jsonrpc":"2.0","id": step[1], "method": step[2], "params": params})).await;
+                }
                 "idle" => {
                     if !wait_idle(&msgs2, &expected, base, timeout).await {
                         timed_out = true;
